@@ -114,6 +114,13 @@ def w_ook(ctx, rng, i):
         one = np.array([float(O.theory_BER(float(m), s0, s1)) for m in mus])
         vec2 = np.asarray(O.theory_BER(mus, np.full(mus.size, s0), np.full(mus.size, s1)), float)
     ctx.check("vectorise", vec.shape == mus.shape and np.array_equal(vec, one) and np.array_equal(vec2, one), "ook.theory_BER does not vectorise element-wise")
+    with core.quiet():
+        mx = np.concatenate([[20.0 * s], mus])
+        onex = np.concatenate([[float(O.theory_BER(20.0 * s, s0, s1))], one])
+        for perm in (np.arange(mx.size)[::-1], rng.permutation(mx.size), np.arange(mx.size)):
+            arg = mx[perm] if rng.integers(3) else mx[perm].tolist()
+            got = np.asarray(O.theory_BER(arg, s0, s1), float)
+            ctx.check("vectorise", got.shape == mx.shape and np.array_equal(got, onex[perm]), f"ook.theory_BER on an array in the order {perm.tolist()} differs from the element-by-element values")
     ctx.check("monotone", np.all(np.diff(vec) <= 1e-3 * vec[:-1] + 1e-300), f"ook.theory_BER is not non-increasing in mu: {vec}")
     ctx.case(("ook", round(math.log10(s0)), round(math.log10(s1 / s0), 1), round(mu / s)), sample=dict(mu=mu, s0=s0, s1=s1, out=out, true_min=lo) if i < 3 else None)
 
@@ -146,6 +153,15 @@ def w_ppm(ctx, rng, i):
             vec = np.asarray(P.theory_BER(mus, s0, s1, M, dec), float)
             one = np.array([float(P.theory_BER(float(m), s0, s1, M, dec)) for m in mus])
             ctx.check("vectorise", vec.shape == mus.shape and np.allclose(vec, one, rtol=1e-12, atol=1e-15), f"ppm.theory_BER({dec}) does not vectorise element-wise")
+            # element-wise means order-independent: descending and shuffled sweeps (the first element may be the most open eye),
+            # list form, and the far end of the range (20 s)
+            mx = np.concatenate([[20.0 * s], mus])
+            onex = np.concatenate([[float(P.theory_BER(20.0 * s, s0, s1, M, dec))], one])
+            for perm in (np.arange(mx.size), np.arange(mx.size)[::-1], rng.permutation(mx.size)):
+                arg = mx[perm] if rng.integers(3) else mx[perm].tolist()
+                got = np.asarray(P.theory_BER(arg, s0, s1, M, dec), float)
+                ctx.check("vectorise", got.shape == mx.shape and np.allclose(got, onex[perm], rtol=1e-12, atol=1e-15),
+                          f"ppm.theory_BER({dec}) on an array in the order {perm.tolist()} differs from the element-by-element values: {got} vs {onex[perm]}")
             ctx.check("monotone", np.all(np.diff(vec) <= 2e-3 * vec[:-1] + 2 * SOFT_ATOL), f"ppm.theory_BER({dec}) is not non-increasing in mu: {vec}")
         ctx.raises("errors", ValueError, P.theory_BER, mu, s0, s1, int(rng.choice([3, 5, 6, 12, 100])), "hard")
         ctx.raises("errors", ValueError, P.theory_BER, mu, s0, s1, M, "medium")
